@@ -206,62 +206,8 @@ func (e *Env) consumeSweep(l klevdb.Log, tag, what string) {
 			if max == 0 {
 				max = e.mc(o + 5)
 			}
-			no, msgs, err := l.Consume(o, max)
-			e.St.Inc("consume_calls")
-			if o > m.Next {
-				if !errors.Is(err, klevdb.ErrInvalidOffset) {
-					e.failf(tag, "%s: Consume(%d) beyond NextOffset=%d returned %d,%v, want ErrInvalidOffset", what, o, m.Next, no, err)
-				}
-				continue
-			}
-			if o < -2 {
-				// offsets below the two relative constants are not covered by the property beyond "no wrong data":
-				// whatever is returned must be a run of live messages
-				if err != nil {
-					continue
-				}
-			}
-			if err != nil {
-				e.failf(tag, "%s: Consume(%d,%d) failed: %v", what, o, max, err)
-			}
-			if o == klevdb.OffsetNewest {
-				if no != m.Next || len(msgs) != 0 {
-					e.failf(tag, "%s: Consume(OffsetNewest) -> %d with %d messages, want %d and none", what, no, len(msgs), m.Next)
-				}
-				continue
-			}
-			i := m.Idx(o)
-			if o == klevdb.OffsetOldest || o < 0 {
-				i = 0
-			}
-			if i < len(m.Live) && m.Live[i].Off != o && o >= 0 {
+			if e.consumeOne(l, tag, what, o, max) {
 				holes = true
-			}
-			if len(msgs) > 0 {
-				if int64(len(msgs)) > max {
-					e.failf(tag, "%s: Consume(%d,%d) returned %d messages", what, o, max, len(msgs))
-				}
-				for j := range msgs {
-					if i+j >= len(m.Live) || !m.Live[i+j].Eq(msgs[j]) {
-						e.failf(tag, "%s: Consume(%d,%d) message %d is %+v; live run from there is %v", what, o, max, j, FromMessage(msgs[j]), offsFrom(m, i, len(msgs)))
-					}
-				}
-				if no != msgs[len(msgs)-1].Offset+1 {
-					e.failf(tag, "%s: Consume(%d,%d) next offset %d != last returned %d + 1", what, o, max, no, msgs[len(msgs)-1].Offset)
-				}
-			} else {
-				if i < len(m.Live) && m.Live[i].Off < no {
-					e.failf(tag, "%s: Consume(%d,%d) returned nothing and next offset %d steps over live message %d", what, o, max, no, m.Live[i].Off)
-				}
-				if o >= 0 && no < o {
-					e.failf(tag, "%s: Consume(%d) next offset %d went backwards", what, o, no)
-				}
-				if i >= len(m.Live) && no != m.Next {
-					e.failf(tag, "%s: Consume(%d) is caught up but next offset is %d, want NextOffset %d", what, o, no, m.Next)
-				}
-				if no > m.Next {
-					e.failf(tag, "%s: Consume(%d) next offset %d beyond NextOffset %d", what, o, no, m.Next)
-				}
 			}
 		}
 	}
@@ -276,6 +222,69 @@ func (e *Env) consumeSweep(l klevdb.Log, tag, what string) {
 			e.failf(tag, "%s: Consume(%d) far beyond NextOffset=%d returned %d,%v,%v want ErrInvalidOffset", what, o, m.Next, no, msgOffsets(msgs), err)
 		}
 	}
+}
+
+// consumeOne checks one Consume call against the model; it reports whether the offset fell into a hole.
+func (e *Env) consumeOne(l klevdb.Log, tag, what string, o, max int64) (holes bool) {
+	m := e.M
+	no, msgs, err := l.Consume(o, max)
+	e.St.Inc("consume_calls")
+	if o > m.Next {
+		if !errors.Is(err, klevdb.ErrInvalidOffset) {
+			e.failf(tag, "%s: Consume(%d) beyond NextOffset=%d returned %d,%v, want ErrInvalidOffset", what, o, m.Next, no, err)
+		}
+		return holes
+	}
+	if o < -2 {
+		// offsets below the two relative constants are not covered by the property beyond "no wrong data":
+		// whatever is returned must be a run of live messages
+		if err != nil {
+			return holes
+		}
+	}
+	if err != nil {
+		e.failf(tag, "%s: Consume(%d,%d) failed: %v", what, o, max, err)
+	}
+	if o == klevdb.OffsetNewest {
+		if no != m.Next || len(msgs) != 0 {
+			e.failf(tag, "%s: Consume(OffsetNewest) -> %d with %d messages, want %d and none", what, no, len(msgs), m.Next)
+		}
+		return holes
+	}
+	i := m.Idx(o)
+	if o == klevdb.OffsetOldest || o < 0 {
+		i = 0
+	}
+	if i < len(m.Live) && m.Live[i].Off != o && o >= 0 {
+		holes = true
+	}
+	if len(msgs) > 0 {
+		if int64(len(msgs)) > max {
+			e.failf(tag, "%s: Consume(%d,%d) returned %d messages", what, o, max, len(msgs))
+		}
+		for j := range msgs {
+			if i+j >= len(m.Live) || !m.Live[i+j].Eq(msgs[j]) {
+				e.failf(tag, "%s: Consume(%d,%d) message %d is %+v; live run from there is %v", what, o, max, j, FromMessage(msgs[j]), offsFrom(m, i, len(msgs)))
+			}
+		}
+		if no != msgs[len(msgs)-1].Offset+1 {
+			e.failf(tag, "%s: Consume(%d,%d) next offset %d != last returned %d + 1", what, o, max, no, msgs[len(msgs)-1].Offset)
+		}
+	} else {
+		if i < len(m.Live) && m.Live[i].Off < no {
+			e.failf(tag, "%s: Consume(%d,%d) returned nothing and next offset %d steps over live message %d", what, o, max, no, m.Live[i].Off)
+		}
+		if o >= 0 && no < o {
+			e.failf(tag, "%s: Consume(%d) next offset %d went backwards", what, o, no)
+		}
+		if i >= len(m.Live) && no != m.Next {
+			e.failf(tag, "%s: Consume(%d) is caught up but next offset is %d, want NextOffset %d", what, o, no, m.Next)
+		}
+		if no > m.Next {
+			e.failf(tag, "%s: Consume(%d) next offset %d beyond NextOffset %d", what, o, no, m.Next)
+		}
+	}
+	return holes
 }
 
 // farOffsets are unassigned offsets well away from NextOffset, up to the largest int64.
@@ -294,38 +303,7 @@ func offsFrom(m *Model, i, n int) []int64 {
 func (e *Env) getSweep(l klevdb.Log, tag, what string) {
 	m := e.M
 	for o := int64(0); o <= m.Next+2; o++ {
-		g, err := l.Get(o)
-		e.St.Inc("get_calls")
-		x, live := m.Find(o)
-		switch {
-		case live:
-			if err != nil || !x.Eq(g) {
-				e.failf(tag, "%s: Get(%d) of a live message returned %+v,%v want %+v", what, o, FromMessage(g), err, x)
-			}
-		case o < m.Next:
-			if !errors.Is(err, klevdb.ErrNotFound) {
-				e.failf(tag, "%s: Get(%d) of a deleted message (NextOffset %d) returned %v, want ErrNotFound", what, o, m.Next, err)
-			}
-			e.flag("get-deleted")
-		default:
-			if !errors.Is(err, klevdb.ErrInvalidOffset) {
-				e.failf(tag, "%s: Get(%d) of an unassigned offset (NextOffset %d) returned %v, want ErrInvalidOffset", what, o, m.Next, err)
-			}
-		}
-		// agreement with Consume
-		no, msgs, cerr := l.Consume(o, 1)
-		if o <= m.Next {
-			if cerr != nil {
-				e.failf(tag, "%s: Consume(%d,1) failed: %v", what, o, cerr)
-			}
-			if live {
-				if len(msgs) != 1 || msgs[0].Offset != o || !x.Eq(msgs[0]) {
-					e.failf(tag, "%s: Get(%d) is live but Consume(%d,1) returned %v next %d", what, o, o, msgOffsets(msgs), no)
-				}
-			} else if len(msgs) > 0 && msgs[0].Offset <= o {
-				e.failf(tag, "%s: Get(%d) says not found but Consume returned offset %d", what, o, msgs[0].Offset)
-			}
-		}
+		e.getOne(l, tag, what, o)
 	}
 	for _, o := range farOffsets(m.Next, e.Step) {
 		g, err := l.Get(o)
@@ -348,6 +326,81 @@ func (e *Env) getSweep(l klevdb.Log, tag, what string) {
 		}
 		if err != nil || !want.Eq(g) {
 			e.failf(tag, "%s: Get(%d) returned %+v,%v want %+v", what, rel, FromMessage(g), err, want)
+		}
+	}
+}
+
+// getOne checks one Get call (and the Consume that must agree with it) against the model.
+func (e *Env) getOne(l klevdb.Log, tag, what string, o int64) {
+	m := e.M
+	g, err := l.Get(o)
+	e.St.Inc("get_calls")
+	x, live := m.Find(o)
+	switch {
+	case live:
+		if err != nil || !x.Eq(g) {
+			e.failf(tag, "%s: Get(%d) of a live message returned %+v,%v want %+v", what, o, FromMessage(g), err, x)
+		}
+	case o < m.Next:
+		if !errors.Is(err, klevdb.ErrNotFound) {
+			e.failf(tag, "%s: Get(%d) of a deleted message (NextOffset %d) returned %v, want ErrNotFound", what, o, m.Next, err)
+		}
+		e.flag("get-deleted")
+	default:
+		if !errors.Is(err, klevdb.ErrInvalidOffset) {
+			e.failf(tag, "%s: Get(%d) of an unassigned offset (NextOffset %d) returned %v, want ErrInvalidOffset", what, o, m.Next, err)
+		}
+	}
+	// agreement with Consume
+	no, msgs, cerr := l.Consume(o, 1)
+	if o <= m.Next {
+		if cerr != nil {
+			e.failf(tag, "%s: Consume(%d,1) failed: %v", what, o, cerr)
+		}
+		if live {
+			if len(msgs) != 1 || msgs[0].Offset != o || !x.Eq(msgs[0]) {
+				e.failf(tag, "%s: Get(%d) is live but Consume(%d,1) returned %v next %d", what, o, o, msgOffsets(msgs), no)
+			}
+		} else if len(msgs) > 0 && msgs[0].Offset <= o {
+			e.failf(tag, "%s: Get(%d) says not found but Consume returned offset %d", what, o, msgs[0].Offset)
+		}
+	}
+}
+
+// applyProbe: a single read at one offset, between two other operations and without the sweeps around it. A sweep
+// visits every offset in ascending order and so leaves (and then repairs) whatever position state a handle keeps
+// between calls; a lone call after a publish, a rollover or a delete sees that state as the last operation left it.
+func (e *Env) applyProbe(op Op) {
+	m := e.M
+	sel, r := op.N%4, op.N/4
+	var o int64
+	switch {
+	case sel == 0 && len(m.Live) > 0:
+		o = m.Live[int(r)%len(m.Live)].Off
+	case sel == 1:
+		o = m.Next - r%4
+		if o < 0 {
+			o = 0
+		}
+	case sel == 2:
+		o = m.Next + r%3
+	case len(m.Live) > 0:
+		o = m.Live[int(r)%len(m.Live)].Off + 1
+	default:
+		o = m.Next
+	}
+	e.St.Inc("probe_calls")
+	if op.Variant%2 == 0 {
+		if e.own("consume") {
+			e.consumeOne(e.L, "consume", "probe", o, e.mc(r))
+		} else {
+			_, _, _ = e.L.Consume(o, e.mc(r))
+		}
+	} else {
+		if e.own("get") {
+			e.getOne(e.L, "get", "probe", o)
+		} else {
+			_, _ = e.L.Get(o)
 		}
 	}
 }
